@@ -53,6 +53,9 @@ def _places(j, out):
     elif isinstance(j, dict):
         if "l" in j and isinstance(j["l"], int) and set(j) <= {"l", "p"}:
             out.append(j)
+            for e in j.get("p", []) or []:
+                if isinstance(e, dict) and isinstance(e.get("idx"), int):
+                    out.append({"l": e["idx"]})          # `a[i]` reads i as well
             return
         for k, v in j.items():
             if k != "sp":
